@@ -101,6 +101,7 @@ fn conc<H: HashAlgorithm + Send + Sync + 'static>(scen: &Scenario, dir: PathBuf,
                             let e1 = tick();
                             hist.lock().unwrap().push(Rec { inv: e0, ret: e1, task: task.clone(), ev: Ev::SessEnd { id: sid } });
                             let new_root = fin.root().into_inner();
+                            if std::env::var("SIM_LIN_DEBUG").is_ok() { eprintln!("  DEBUG {task}: session base {} finished root {} writes {:?}", &hex(&prev_root)[..8], &hex(&new_root)[..8], writes.iter().map(|(k, v)| (hex(&k.0)[..10].to_string(), v.map(|x| (x.len, x.stamp)))).collect::<Vec<_>>()); }
                             let w: Vec<(Key, Option<VSpec>)> = writes.iter().map(|(k, v)| (k.0, *v)).collect();
                             let inv = tick();
                             let ev = if nonblocking {
@@ -196,7 +197,8 @@ fn conc<H: HashAlgorithm + Send + Sync + 'static>(scen: &Scenario, dir: PathBuf,
     let mut hc = HashCache::default();
     let rollback_on = scen.opts.rollback;
     let max_log = scen.opts.max_rollback_log_len as usize;
-    match linearise::<H>(&h, &cur, &model_hist, rollback_on, max_log, &mut hc) {
+    let final_root = nomt.root().into_inner();
+    match linearise::<H>(&h, &cur, &model_hist, rollback_on, max_log, &mut hc, final_root) {
         Ok(final_state) => {
             // no committed batch lost: the store now holds exactly the folded state, also after reopen
             let trie_root = ref_trie::<H>(&final_state, &mut hc).hash();
@@ -223,36 +225,72 @@ fn conc<H: HashAlgorithm + Send + Sync + 'static>(scen: &Scenario, dir: PathBuf,
             }
             r.signature ^= h.iter().fold(0u64, |a, x| crate::rng::mix(a ^ x.inv ^ (x.ret << 20) ^ x.task.len() as u64));
         }
-        Err(msg) => viol(&rep, "C15", "history-not-linearizable", msg),
+        Err(msg) => {
+            let mut hs: Vec<&Rec> = h.iter().collect();
+            hs.sort_by_key(|r| r.inv);
+            let dump: Vec<String> = hs.iter().map(|r| format!("[{}..{}] {} {}", r.inv, r.ret, r.task, match &r.ev {
+                Ev::SessBegin { id, obs, prev_root } => format!("begin#{id} base {} obs {:?}", &hex(prev_root)[..8], obs.iter().map(|(k, v)| (hex(k)[..6].to_string(), v.as_ref().map(|b| b.len()))).collect::<Vec<_>>()),
+                Ev::SessEnd { id } => format!("end#{id}"),
+                Ev::CommitOk { prev_root, new_root, .. } => format!("commit ok {} -> {}", &hex(prev_root)[..8], &hex(new_root)[..8]),
+                Ev::CommitStale { prev_root } => format!("commit stale (base {})", &hex(prev_root)[..8]),
+                Ev::HandedBack => "handed back".to_string(),
+                Ev::RollbackOk { n } => format!("rollback({n}) ok"),
+                Ev::RollbackErr { n } => format!("rollback({n}) refused"),
+            })).collect();
+            if std::env::var("SIM_LIN_DEBUG").is_ok() {
+                // what the store holds now, read back key by key
+                let mut st = State::new();
+                let keys: Vec<Key> = plan.initial.iter().map(|x| x.0 .0).chain(plan.writers.iter().flatten().flat_map(|op| match op { WOp::Commit { writes, .. } | WOp::OverlayCommit { writes, .. } => writes.iter().map(|w| w.0 .0).collect::<Vec<_>>(), _ => vec![] })).collect();
+                for k in &keys { if let Ok(Some(v)) = nomt.read(*k) { eprintln!("  FINAL read {} = len {} stamp {:?}", &hex(k)[..10], v.len(), v.get(..4).map(|s| u32::from_le_bytes(s.try_into().unwrap()))); if v.len() >= 4 { st.insert(*k, VSpec { len: v.len() as u32, stamp: u32::from_le_bytes(v[..4].try_into().unwrap()) }); } } }
+                for drop_k in st.keys().cloned().collect::<Vec<_>>() { let mut alt = st.clone(); alt.remove(&drop_k); eprintln!("    FINAL without {}: {}", &hex(&drop_k)[..10], hex(&ref_trie::<H>(&alt, &mut hc).hash())); }
+                eprintln!("  FINAL store root {} ; reference trie over what it holds {}", hex(&final_root), hex(&ref_trie::<H>(&st, &mut hc).hash()));
+            }
+            viol(&rep, "C15", "history-not-linearizable", format!("{msg}; final root {}; history: {}", &hex(&final_root)[..8], dump.join(" | ")))
+        }
     }
 }
 
 /// Sequential specification + Wing-Gong linearizability search over the recorded history.
-fn linearise<H: HashAlgorithm>(h: &[Rec], init: &State, init_hist: &[State], rollback_on: bool, max_log: usize, hc: &mut HashCache) -> Result<State, String> {
+fn linearise<H: HashAlgorithm>(h: &[Rec], init: &State, init_hist: &[State], rollback_on: bool, max_log: usize, hc: &mut HashCache, final_root: [u8; 32]) -> Result<State, String> {
     #[derive(Clone)]
     struct St { cur: State, hist: Vec<State>, retained: usize, live: i32, snaps: BTreeMap<usize, State> }
     let n = h.len();
     if n > 60 { return Err(format!("history too long for the checker ({n} events)")); }
     let init_st = St { cur: init.clone(), hist: init_hist.to_vec(), retained: if rollback_on { init_hist.len().min(max_log) } else { 0 }, live: 0, snaps: BTreeMap::new() };
+    // a proper hash of a state: every field is mixed on its own (XOR-combining key bytes with
+    // stamps collides for the near-identical keys the generators produce on purpose)
+    fn state_hash(st: &State) -> u64 {
+        let mut x = 0xcbf29ce484222325u64;
+        for (k, v) in st {
+            for c in k.chunks(8) { x = crate::rng::mix(x ^ u64::from_le_bytes(c.try_into().unwrap())); }
+            x = crate::rng::mix(x ^ v.stamp as u64);
+            x = crate::rng::mix(x ^ (v.len as u64).rotate_left(32));
+        }
+        x
+    }
     fn key_of(done: u64, st: &St) -> (u64, u64) {
-        let mut x = 0u64;
-        for (k, v) in &st.cur { x = crate::rng::mix(x ^ u64::from_le_bytes(k[..8].try_into().unwrap()) ^ (v.stamp as u64) << 32 ^ v.len as u64); }
+        let mut x = state_hash(&st.cur);
+        for h in &st.hist { x = crate::rng::mix(x ^ state_hash(h)); }
         x = crate::rng::mix(x ^ st.hist.len() as u64 ^ (st.retained as u64) << 16 ^ (st.live as u64) << 40);
         (done, x)
     }
     let mut seen: HashSet<(u64, u64)> = HashSet::new();
     let mut roots: BTreeMap<u64, [u8; 32]> = BTreeMap::new();
     let mut root_of = |st: &State, hc: &mut HashCache| -> [u8; 32] {
-        let mut x = 0u64;
-        for (k, v) in st { x = crate::rng::mix(x ^ u64::from_le_bytes(k[..8].try_into().unwrap()) ^ u64::from_le_bytes(k[8..16].try_into().unwrap()).rotate_left(7) ^ (v.stamp as u64) << 32 ^ v.len as u64); }
-        *roots.entry(x).or_insert_with(|| ref_trie::<H>(st, hc).hash())
+        *roots.entry(state_hash(st)).or_insert_with(|| ref_trie::<H>(st, hc).hash())
     };
     // iterative DFS
     let mut stack: Vec<(u64, St)> = vec![(0, init_st)];
     let mut best = 0u32;
     let mut best_reason = String::new();
     while let Some((done, st)) = stack.pop() {
-        if done.count_ones() as usize == n { return Ok(st.cur); }
+        if done.count_ones() as usize == n {
+            // several linearisations may be valid (e.g. a commit and a rollback that overlap); the
+            // store followed one of them: accept only one that ends in the state the store is in
+            if root_of(&st.cur, hc) == final_root { return Ok(st.cur); }
+            if best <= n as u32 { best = n as u32; best_reason = "every call can be ordered, but no valid order ends in the state the store is in after all tasks joined (a committed batch was lost or applied twice)".into(); }
+            continue;
+        }
         if !seen.insert(key_of(done, &st)) { continue; }
         // minimal events: invoked before every pending event returned
         let min_ret = (0..n).filter(|i| done & (1 << i) == 0).map(|i| h[i].ret).min().unwrap();
@@ -278,7 +316,14 @@ fn linearise<H: HashAlgorithm>(h: &[Rec], init: &State, init_hist: &[State], rol
                         s2.hist.push(s2.cur.clone());
                         for (k, v) in writes { match v { Some(v) => { s2.cur.insert(*k, *v); } None => { s2.cur.remove(k); } } }
                         if rollback_on { s2.retained = (s2.retained + 1).min(max_log); }
-                        if *new_root != root_of(&s2.cur, hc) { Err("committed root differs from the model".into()) } else { Ok(()) }
+                        if *new_root != root_of(&s2.cur, hc) {
+                            if std::env::var("SIM_LIN_DEBUG").is_ok() {
+                                eprintln!("  store new_root {} model(root_of) {} direct ref_trie {} cur keys {:?}", hex(new_root), hex(&root_of(&s2.cur, hc)), hex(&ref_trie::<H>(&s2.cur, hc).hash()), s2.cur.iter().map(|(k, v)| (hex(k)[..12].to_string(), v.len, v.stamp)).collect::<Vec<_>>());
+                                for drop_k in s2.cur.keys().cloned().collect::<Vec<_>>() { let mut alt = s2.cur.clone(); alt.remove(&drop_k); eprintln!("    without {}: {}", &hex(&drop_k)[..8], hex(&root_of(&alt, hc))); }
+                                for st in init_hist.iter() { for (k, v) in st { if !s2.cur.contains_key(k) { let mut alt = s2.cur.clone(); alt.insert(*k, *v); eprintln!("    with {} ({},{}): {}", &hex(k)[..8], v.len, v.stamp, hex(&root_of(&alt, hc))); } } }
+                            }
+                            Err("committed root differs from the model".into())
+                        } else { Ok(()) }
                     }
                 }
                 Ev::CommitStale { prev_root } => { if *prev_root == root_of(&s2.cur, hc) { Err(format!("commit of {} was rejected although its base was current", h[i].task)) } else { Ok(()) } }
@@ -297,7 +342,7 @@ fn linearise<H: HashAlgorithm>(h: &[Rec], init: &State, init_hist: &[State], rol
             };
             match ok {
                 Ok(()) => stack.push((done | (1 << i), s2)),
-                Err(r) => { let d = done.count_ones(); if d >= best { best = d; best_reason = r; } }
+                Err(r) => { if std::env::var("SIM_LIN_DEBUG").is_ok() { eprintln!("done={:b} reject i={} [{}..{}] {}: {}", done, i, h[i].inv, h[i].ret, h[i].task, r); } let d = done.count_ones(); if d >= best { best = d; best_reason = r; } }
             }
         }
     }
